@@ -1,8 +1,10 @@
 package main
 
 import (
+	"bytes"
 	"errors"
 	"fmt"
+	"os"
 	"runtime"
 	"strconv"
 	"strings"
@@ -18,12 +20,15 @@ import (
 //	  progs: one program per thread (';'), operations separated by '.':
 //	    K0 = Close(nil); Kn/Ke/Kp = Close(callback returning nil / an error / panicking);
 //	    KN/KE/KP = the same callbacks "blocking for a while": they yield to the scheduler once
-//	    in the middle (site M); C = C(); I = IsClosed().
+//	    in the middle (site M); C = C(); I = IsClosed(); W = WaitUtil(1 hour): its wait is a step of its
+//	    own (site W = parked inside the select), see "Threads that REALLY block" below.
+//	  sched: thread ids; f<tid> = forced step (resume the thread even though it is parked before a held mutex).
 //	  All threads share one zero-value loom.WaitClose. The scheduler is mutex-aware: the owner
 //	  of wc.mutex is tracked through the AfterLock/AfterUnlock yield events and a thread parked
 //	  at BeforeLock while the mutex is held is disabled ("blocked"), so the real Lock() never
 //	  blocks a managed goroutine.
-//	  Output: steps=<obs per scheduled step> fin=<tid:obs round-robin completion> end=<IsClosed()>
+//	  Output: steps=<obs per scheduled step> fin=<tid:obs round-robin completion> [waiting=<tids still inside
+//	  WaitUtil>] end=<IsClosed()> [rel=<tid:obs of the waiting calls after a final Close(nil) by the harness>]
 //	  obs = <event>/<callback markers of this step: s=start e=end>/<closedness 0|1 of every channel
 //	  ever returned by C(), in order of first appearance>; event = yL|yB|yA|yU|yM (parked at
 //	  LoadState, BeforeLock, AfterLock, AfterUnlock, mid-callback) | r:nil | r:err | r:true |
@@ -37,6 +42,8 @@ type wcCase struct {
 	marks []byte
 	chans []chan struct{}
 	owner int
+	det   []int // per thread: detNone / detLock / detSel
+	ndet  int
 }
 
 func wcSiteName(site int) string {
@@ -64,7 +71,7 @@ func (c *wcCase) callback(kind byte) func() error {
 	return func() error {
 		c.marks = append(c.marks, 's')
 		if yields {
-			c.s.Yield(wcSiteMid)
+			c.yield(wcSiteMid)
 		}
 		c.marks = append(c.marks, 'e')
 		switch kind {
@@ -98,6 +105,8 @@ func (c *wcCase) progs(spec string) [][]coop.Op {
 			switch {
 			case o == "C":
 				ops = append(ops, func() string { return c.classOf(c.wc.C()) })
+			case o == "W":
+				ops = append(ops, func() string { return strconv.FormatBool(c.wc.WaitUtil(time.Hour)) })
 			case o == "I":
 				ops = append(ops, func() string { return strconv.FormatBool(c.wc.IsClosed()) })
 			case len(o) == 2 && o[0] == 'K' && strings.IndexByte("0nepNEP", o[1]) >= 0:
@@ -135,24 +144,210 @@ func isClosedChan(ch chan struct{}) bool {
 	}
 }
 
-// step with a watchdog: a managed goroutine blocking on the real mutex (possible only when
-// the code under test no longer matches the yield protocol) must not hang the harness.
-func (c *wcCase) step(tid int) (string, bool) {
-	done := make(chan coop.Event, 1)
-	go func() { done <- c.s.Step(tid) }()
-	var ev coop.Event
-	select {
-	case ev = <-done:
-	case <-time.After(2 * time.Second):
-		wcHung = true
-		return "HANG", false
+// Threads that REALLY block inside the library. A step is "resume the goroutine, then poll": either its
+// event arrives, or the goroutine is found parked (status of its runtime.Stack header, read with the world
+// stopped) inside WaitUtil's select ("select") or inside mutex.Lock() ("sync.Mutex.Lock"). No timing is
+// involved: nobody else runs during a step, so parked-in-select means that no case of the select was ready
+// when the wait began (the WaitUtil timeout is one hour), parked-in-Lock means the mutex was held.
+//
+//	detSel:  the thread is inside WaitUtil's select (model: pc WWait, site yW). A later step of it is
+//	         "blocked" while it is still parked there, and yields its return value once a close woke it up.
+//	detLock: a FORCED step (schedule item f<tid>) resumed a thread parked at BeforeLock although the mutex is
+//	         held; in the model that step is the disabled no-op, here the goroutine must park inside Lock()
+//	         (observation "blocked"). It acquires the mutex by itself as soon as the holder unlocks and runs on
+//	         to its AfterLock yield: that is reported as an automatic step "+<tid>:<obs>" appended to the
+//	         observation of the unlocking step (the model driver does the same: the waiter is the only
+//	         contender, nobody else runs). At most one thread is inside Lock() at a time; an f item meeting
+//	         another one, or a thread that is not disabled, is an ordinary step.
+const (
+	detNone = iota
+	detLock
+	detSel
+)
+
+// goStatus returns "select" / "sync.Mutex.Lock" when goroutine id is parked (status _Gwaiting with that wait
+// reason) inside WaitUtil's select / inside a Lock() called from a WaitClose method, "" or another status
+// otherwise. The frames are checked as well: a goroutine can park for reasons of the runtime's own (e.g. it
+// starts a GC cycle and waits for the world semaphore that this very function holds while dumping the stacks).
+func goStatus(id uint64) string {
+	buf := make([]byte, 1<<16)
+	for {
+		n := runtime.Stack(buf, true)
+		if n < len(buf) {
+			buf = buf[:n]
+			break
+		}
+		buf = make([]byte, 2*len(buf))
 	}
-	var name string
+	key := []byte("goroutine " + strconv.FormatUint(id, 10) + " [")
+	for off := 0; off < len(buf); {
+		i := bytes.Index(buf[off:], key)
+		if i < 0 {
+			return ""
+		}
+		i += off
+		if i == 0 || buf[i-1] == '\n' {
+			rest := buf[i+len(key):]
+			j := bytes.IndexAny(rest, ",]")
+			if j < 0 {
+				return ""
+			}
+			st := string(rest[:j])
+			block := rest
+			if k := bytes.Index(rest, []byte("\n\n")); k >= 0 {
+				block = rest[:k]
+			}
+			switch st {
+			case "select":
+				if !bytes.Contains(block, []byte("loom.(*WaitClose).WaitUtil")) {
+					return "other:" + st
+				}
+			case "sync.Mutex.Lock":
+				if !bytes.Contains(block, []byte("sync.(*Mutex).Lock")) || !bytes.Contains(block, []byte("loom.(*WaitClose).")) {
+					return "other:" + st
+				}
+			}
+			return st
+		}
+		off = i + len(key)
+	}
+	return ""
+}
+
+func allStacks() string {
+	buf := make([]byte, 1<<18)
+	return string(buf[:runtime.Stack(buf, true)])
+}
+
+func parkedStatus(st string) bool {
+	return st == "select" || st == "sync.Mutex.Lock"
+}
+
+// await polls for the event of a resumed (or detached and possibly woken) thread. It returns the event, or the
+// status in which the goroutine is parked inside the library, or "HANG:..." when neither happens within 2 s.
+func (c *wcCase) await(t *coop.Thread) (coop.Event, string) {
+	deadline := time.Now().Add(2 * time.Second)
+	for n := 0; ; n++ {
+		if ev, ok := c.s.TryEnd(t); ok {
+			return ev, ""
+		}
+		if n < 40 {
+			runtime.Gosched()
+			continue
+		}
+		st := goStatus(t.GID())
+		if parkedStatus(st) {
+			return coop.Event{}, st
+		}
+		if time.Now().After(deadline) {
+			return coop.Event{}, "HANG:" + st
+		}
+		if n > 400 {
+			time.Sleep(50 * time.Microsecond)
+		} else {
+			runtime.Gosched()
+		}
+	}
+}
+
+// yield hook: the goroutine of a detached thread (woken inside Lock by the holder's Unlock) reports on its own
+// channel; everything else goes through the scheduler.
+func (c *wcCase) yield(site int) {
+	if c.ndet > 0 {
+		g := coop.GID()
+		for i, k := range c.det {
+			if k != detNone && c.s.Threads[i].GID() == g {
+				c.s.YieldAs(c.s.Threads[i], site)
+				return
+			}
+		}
+	}
+	c.s.Yield(site)
+}
+
+func (c *wcCase) setDet(tid, k int) {
+	if (c.det[tid] == detNone) != (k == detNone) {
+		if k == detNone {
+			c.ndet--
+		} else {
+			c.ndet++
+		}
+	}
+	c.det[tid] = k
+}
+
+func (c *wcCase) anyInLock() int {
+	for i, k := range c.det {
+		if k == detLock {
+			return i
+		}
+	}
+	return -1
+}
+
+func (c *wcCase) evName(ev coop.Event) string {
 	if ev.Kind == coop.KYield {
-		name = wcSiteName(ev.Site)
-	} else {
-		name = ev.String()
+		return wcSiteName(ev.Site)
 	}
+	return ev.String()
+}
+
+// one step of thread tid -> event name; "HANG" = a goroutine got stuck where the protocol does not allow it
+func (c *wcCase) stepEvent(tid int, forced bool) string {
+	if tid < 0 || tid >= len(c.s.Threads) {
+		return "done"
+	}
+	t := c.s.Threads[tid]
+	if t.Over() {
+		return "done"
+	}
+	switch c.det[tid] {
+	case detSel:
+		ev, st := c.await(t)
+		if st == "select" {
+			return "blocked"
+		}
+		if st != "" {
+			return "HANG"
+		}
+		c.setDet(tid, detNone)
+		return c.evName(ev)
+	case detLock:
+		ev, st := c.await(t)
+		if st == "sync.Mutex.Lock" {
+			return "blocked"
+		}
+		if st != "" {
+			return "HANG"
+		}
+		c.setDet(tid, detNone)
+		return c.evName(ev)
+	}
+	disabled := c.s.Blocked(t)
+	if disabled && !(forced && c.anyInLock() < 0) {
+		return "blocked"
+	}
+	c.s.Begin(tid)
+	ev, st := c.await(t)
+	switch {
+	case st == "":
+		return c.evName(ev)
+	case st == "select":
+		c.setDet(tid, detSel)
+		c.s.Detach(t)
+		return "yW"
+	case st == "sync.Mutex.Lock" && disabled:
+		c.setDet(tid, detLock)
+		c.s.Detach(t)
+		return "blocked"
+	}
+	if os.Getenv("VERIF_C16_DEBUG") != "" {
+		fmt.Fprintf(os.Stderr, "HANG tid=%d st=%q disabled=%v owner=%d det=%v\n%s\n", tid, st, disabled, c.owner, c.det, allStacks())
+	}
+	return "HANG"
+}
+
+func (c *wcCase) render(name string) string {
 	var sb strings.Builder
 	sb.WriteString(name)
 	sb.WriteByte('/')
@@ -166,7 +361,55 @@ func (c *wcCase) step(tid int) (string, bool) {
 			sb.WriteByte('0')
 		}
 	}
-	return sb.String(), true
+	return sb.String()
+}
+
+func (c *wcCase) step(tid int, forced bool) (string, bool) {
+	name := c.stepEvent(tid, forced)
+	if name == "HANG" {
+		wcHung = true
+		return "HANG", false
+	}
+	out := c.render(name)
+	// the mutex was released in this step: the thread inside Lock() takes it
+	if j := c.anyInLock(); j >= 0 && c.owner < 0 {
+		ev, st := c.await(c.s.Threads[j])
+		if st == "" {
+			c.setDet(j, detNone)
+			out += "+" + strconv.Itoa(j) + ":" + c.render(c.evName(ev))
+		} else if os.Getenv("VERIF_C16_DEBUG") != "" {
+			fmt.Fprintf(os.Stderr, "AUTO-SKIP j=%d st=%q owner=%d det=%v\n%s\n", j, st, c.owner, c.det, allStacks())
+		}
+		if strings.HasPrefix(st, "HANG") {
+			wcHung = true
+			return out + "+" + strconv.Itoa(j) + ":HANG", false
+		}
+	}
+	return out, true
+}
+
+// would a step of tid execute something? (as wc_enabled of the model)
+func (c *wcCase) enabled(tid int) bool {
+	t := c.s.Threads[tid]
+	if t.Over() {
+		return false
+	}
+	switch c.det[tid] {
+	case detLock:
+		return false
+	case detSel:
+		deadline := time.Now().Add(2 * time.Second)
+		for {
+			switch st := goStatus(t.GID()); {
+			case st == "select":
+				return false
+			case st == "chan send" || time.Now().After(deadline):
+				return true
+			}
+			runtime.Gosched()
+		}
+	}
+	return !c.s.Blocked(t)
 }
 
 // set once a managed goroutine got stuck in the library: its leaked goroutines may still run
@@ -180,6 +423,7 @@ func runC16(toks []string) string {
 	m := kv(toks[1:])
 	c := &wcCase{owner: -1}
 	c.s = coop.New(c.progs(m["progs"]))
+	c.det = make([]int, len(c.s.Threads))
 	c.s.OnEvent = func(t *coop.Thread, e coop.Event) {
 		if e.Kind == coop.KYield {
 			switch e.Site {
@@ -193,15 +437,16 @@ func runC16(toks []string) string {
 	c.s.Blocked = func(t *coop.Thread) bool {
 		return t.AtSite == loom.VerifSiteWcBeforeLock && c.owner >= 0
 	}
-	loom.VerifYield = c.s.Yield
+	loom.VerifYield = c.yield
 	defer func() { loom.VerifYield = nil }()
 	var sb strings.Builder
 	sb.WriteString("steps=")
-	for i, tid := range intList(m["sched"]) {
+	for i, tok := range splitNonEmpty(m["sched"], ",") {
 		if i > 0 {
 			sb.WriteByte(',')
 		}
-		o, ok := c.step(tid)
+		forced := strings.HasPrefix(tok, "f")
+		o, ok := c.step(atoi(strings.TrimPrefix(tok, "f")), forced)
 		sb.WriteString(o)
 		if !ok {
 			return sb.String() + " HANG"
@@ -213,8 +458,8 @@ func runC16(toks []string) string {
 	for n := 0; n < 4096 && !finished; n++ {
 		progressed := false
 		for i := range c.s.Threads {
-			if c.s.Enabled(i) {
-				o, ok := c.step(i)
+			if c.enabled(i) {
+				o, ok := c.step(i, false)
 				if !first {
 					sb.WriteByte(',')
 				}
@@ -233,15 +478,51 @@ func runC16(toks []string) string {
 	if !finished {
 		return sb.String() + " LIVELOCK"
 	}
-	// a thread that is neither finished nor enabled is stuck for ever: deadlock
-	for i := range c.s.Threads {
-		if ev := c.s.Step(i); ev.Kind != coop.KDone {
+	// a thread that is neither finished nor enabled is stuck for ever: deadlock -- unless it is a WaitUtil
+	// waiting (with its one-hour timeout) for a close that no program performs
+	var waiting []int
+	for i, t := range c.s.Threads {
+		if t.Over() {
+			continue
+		}
+		if c.det[i] != detSel {
 			return sb.String() + " DEADLOCK"
+		}
+		waiting = append(waiting, i)
+	}
+	if len(waiting) > 0 {
+		sb.WriteString(" waiting=")
+		for k, i := range waiting {
+			if k > 0 {
+				sb.WriteByte(',')
+			}
+			sb.WriteString(strconv.Itoa(i))
 		}
 	}
 	var end bool
 	c.s.Unmanaged(func() { end = c.wc.IsClosed() })
-	return sb.String() + " end=" + strconv.FormatBool(end)
+	sb.WriteString(" end=" + strconv.FormatBool(end))
+	if len(waiting) > 0 {
+		// release them: a Close by the harness itself, after which every waiting WaitUtil must return true
+		c.s.Unmanaged(func() { c.wc.Close(nil) })
+		sb.WriteString(" rel=")
+		for k, i := range waiting {
+			if k > 0 {
+				sb.WriteByte(',')
+			}
+			o, ok := c.step(i, false)
+			sb.WriteString(strconv.Itoa(i) + ":" + o)
+			if !ok {
+				return sb.String() + " HANG"
+			}
+			if strings.HasPrefix(o, "blocked") {
+				// this goroutine stays inside WaitUtil for its full hour: the process is polluted (every
+				// later stack dump would have to walk over the leaked goroutines), stop executing cases
+				wcHung = true
+			}
+		}
+	}
+	return sb.String()
 }
 
 // real-time WaitUtil scenarios (monitor-only stream)
